@@ -73,7 +73,26 @@ impl<T: Deref<Target = str>> Relativizer<T> {
         // a remainder starting with "//" as an authority,
         // and dot segments present in `iri` would be normalized away).
         let iri: &'a str = iri.unwrap();
-        let candidate = IriRef::new(self.candidate(iri)?).ok()?;
+        let candidate = self.candidate(iri)?;
+        let protected = Self::protect(&candidate);
+        match self.checked(candidate, iri) {
+            Some(reference) => Some(reference),
+            None => self.checked(protected?, iri),
+        }
+    }
+
+    /// A first path segment containing ':' would be parsed as a scheme: "./" protects it.
+    fn protect<'a>(candidate: &str) -> Option<Cow<'a, str>> {
+        if candidate.is_empty() || candidate.starts_with(['/', '.', '?', '#']) {
+            None
+        } else {
+            Some(format!("./{candidate}").into())
+        }
+    }
+
+    /// `candidate` as an IRI reference, provided that it is one and that it resolves to `iri`.
+    fn checked<'a>(&self, candidate: Cow<'a, str>, iri: &str) -> Option<IriRef<Cow<'a, str>>> {
+        let candidate = IriRef::new(candidate).ok()?;
         match self.base.resolve(candidate.as_str()) {
             Ok(abs) if abs.as_str() == iri => Some(candidate),
             _ => None,
